@@ -71,54 +71,55 @@ def build_all(prop, log):
 
 
 def check_theorems(prop, log):
-    """(obligations, discharged, details, broken) for Props/<prop>.v"""
-    pf = os.path.join(COQ, 'Props', prop + '.v')
-    if not os.path.exists(pf):
+    """(obligations, discharged, details, broken) for Props/<prop>*.v (e.g. C02.v, C02_leaf.v)"""
+    files = sorted(glob.glob(os.path.join(COQ, 'Props', prop + '.v')) +
+                   glob.glob(os.path.join(COQ, 'Props', prop + '_*.v')))
+    if not files:
         return 0, 0, [], ['no Props file']
-    src = open(pf).read()
-    names = re.findall(r'^\s*(?:Theorem|Lemma)\s+(\w+)', src, re.M)
-    with open(os.path.join(WORK, 'build.lock'), 'w') as lk:
-        fcntl.flock(lk, fcntl.LOCK_EX)
-        vo = pf[:-2] + '.vo'
-        if os.path.exists(vo):
-            os.remove(vo)
-        rc, out = sh(f'timeout 1700 make -j16 Props/{prop}.vo 2>&1', cwd=COQ, timeout=1800)
-    broken = []
-    details = []
-    if rc != 0:
-        # which theorem? find the first error location
-        m = re.search(r'File "([^"]+)", line (\d+)', out)
-        broken.append('build of Props/%s.v failed: %s' % (prop, out[-1500:].strip()))
-        return len(names), 0, details, broken
-    # Print Assumptions blocks, in order of the theorems
-    blocks = re.split(r'(?=Closed under the global context|Axioms:)', out)
-    blocks = [b for b in blocks if b.startswith('Closed under') or b.startswith('Axioms:')]
-    discharged = 0
-    for k, n in enumerate(names):
-        if k >= len(blocks):
-            broken.append(f'{n}: no Print Assumptions output')
+    broken, details = [], []
+    obligations = discharged = 0
+    for pf in files:
+        rel = os.path.relpath(pf, COQ)
+        src = open(pf).read()
+        names = re.findall(r'^\s*(?:Theorem|Lemma)\s+(\w+)', src, re.M)
+        obligations += len(names)
+        if rel not in open(os.path.join(COQ, '_CoqProject')).read():
+            broken.append(f'{rel} is not part of _CoqProject')
             continue
-        b = blocks[k]
-        if b.startswith('Closed under'):
-            discharged += 1
-            details.append({'theorem': n, 'assumptions': []})
-        else:
-            ax = re.findall(r'^(\S+)\s*:', b, re.M)
-            ax = [a for a in ax if a != 'Axioms']
-            bad = [a for a in ax if a not in ALLOWED_AXIOMS]
-            details.append({'theorem': n, 'assumptions': ax})
-            if bad:
-                broken.append(f'{n}: depends on axioms {bad}')
-            else:
+        with open(os.path.join(WORK, 'build.lock'), 'w') as lk:
+            fcntl.flock(lk, fcntl.LOCK_EX)
+            vo = pf[:-2] + '.vo'
+            if os.path.exists(vo):
+                os.remove(vo)
+            rc, out = sh(f'timeout 1700 make -j16 {rel}o 2>&1', cwd=COQ, timeout=1800)
+        if rc != 0:
+            broken.append('build of %s failed: %s' % (rel, out[-1500:].strip()))
+            continue
+        blocks = re.split(r'(?=Closed under the global context|Axioms:)', out)
+        blocks = [b for b in blocks if b.startswith('Closed under') or b.startswith('Axioms:')]
+        for k, n in enumerate(names):
+            if k >= len(blocks):
+                broken.append(f'{n}: no Print Assumptions output')
+                continue
+            b = blocks[k]
+            if b.startswith('Closed under'):
                 discharged += 1
-    # forbidden constructs anywhere in the development
+                details.append({'theorem': n, 'file': rel, 'assumptions': []})
+            else:
+                ax = [a for a in re.findall(r'^(\S+)\s*:', b, re.M) if a != 'Axioms']
+                bad = [a for a in ax if a not in ALLOWED_AXIOMS]
+                details.append({'theorem': n, 'file': rel, 'assumptions': ax})
+                if bad:
+                    broken.append(f'{n}: depends on axioms {bad}')
+                else:
+                    discharged += 1
     for f in glob.glob(os.path.join(COQ, '**', '*.v'), recursive=True):
         txt = re.sub(r'\(\*.*?\*\)', '', open(f).read(), flags=re.S)
         txt = re.sub(r'"[^"]*"', '""', txt)
         m = FORBIDDEN.search(txt)
         if m:
             broken.append(f'forbidden construct {m.group(0)!r} in {os.path.relpath(f, COQ)}')
-    return len(names), discharged, details, broken
+    return obligations, discharged, details, broken
 
 
 def load_known():
@@ -291,14 +292,14 @@ def main():
 def write_evidence(prop, tier, seed, t0, fam, obligations, discharged, thm_details, samples, dist,
                    nviol, log, thm_broken, extra):
     os.makedirs(os.path.join(VERIF, 'evidence'), exist_ok=True)
-    pf = os.path.join(COQ, 'Props', prop + '.v')
+    pfs = sorted(glob.glob(os.path.join(COQ, 'Props', prop + '.v')) + glob.glob(os.path.join(COQ, 'Props', prop + '_*.v')))
     gf = os.path.join(COQ, 'Peg', 'Grammar.v')
     def sha(p):
         return hashlib.sha256(open(p, 'rb').read()).hexdigest() if os.path.exists(p) else None
     cov = {
         'obligations': obligations,
         'discharged': discharged,
-        'checker_cmd': f'make -C coq Props/{prop}.vo  (coqc 8.16.1; Print Assumptions parsed per theorem)',
+        'checker_cmd': f'make -C coq Props/{prop}*.vo  (coqc 8.16.1; Print Assumptions parsed per theorem)',
         'trusted_base': [
             'Coq 8.16.1 kernel (coqc; vm_compute for computational lemmas; no native_compute)',
             'axioms: none (every property theorem: Closed under the global context)',
@@ -318,7 +319,7 @@ def write_evidence(prop, tier, seed, t0, fam, obligations, discharged, thm_detai
         'disagreements': extra.get('disagreements', 0),
         'oracle_failures': extra.get('oracle_failures', 0),
         'known_findings_met': extra.get('known_findings_met', []),
-        'props_sha256': sha(pf),
+        'props_sha256': {os.path.basename(p): sha(p) for p in pfs},
         'grammar_v_sha256': sha(gf),
         'exhaustive': bool(getattr(fam, 'EXHAUSTIVE', {}).get(tier, False)),
     }
